@@ -21,8 +21,10 @@ CHECKS = {
         text="MC_SortedVec explores the accumulator machine over all vectors (len<=3) of a 6-letter alphabet with one action per branch of "
              "the Rust union (coverage required for all five) and checks union = set union, commutativity and the recursion bound for all "
              "4096 subset pairs. Gen_SortedVec produces the expected From result of all 5461 vectors over {0..3} (len<=6), the union of "
-             "all subset pairs and all query answers; the harness replays them and all 3*10^7 vector pairs. Trace_SortedVec validates "
-             "seeded random longer histories step by step.",
+             "all subset pairs and all query answers; the harness replays them and all 3*10^7 vector pairs. Long operands chosen after the structure "
+             "of the merge - 5832 triples of runs owned by the left / right / both operands with lengths 1, 16, 17, 32, 64, 65, and 35 "
+             "value-by-value interleavings of depth 8..100 over shared / one-sided lower parts - are emitted by TLC with their set union "
+             "and replayed in both operand orders. Trace_SortedVec validates seeded random longer histories step by step.",
         note="Trusted: TLC's evaluation of SortedVec.tla; elements are integers (only Ord is used by the type).",
         design_ref="8/C20",
     ),
@@ -235,7 +237,10 @@ CHECKS = {
              "destination only; 'normalise through the shared pointer' is refuted (non-vacuity). 1200 (quick) / 40000 (thorough) TLC-simulated client "
              "programs of 16 steps are executed on real values; every value a step yields or inspects and every next() of a running iterator must "
              "answer (state, is_*, next_change, iter_range, schedule_at, to_string, ==, Hash) like the value (expression, normalised?, context) TLC "
-             "computed for it, built afresh on another thread.",
+             "computed for it, built afresh on another thread (contexts: none, synthetic sun events, the library's TzLocation with coordinates "
+             "under two zones; holidays; interval-size bounds). Menu call coords_two_zones: the same coordinates under four zones, interleaved, "
+             "judged by Sun.tla's law local event time = instant + zone offset. TLAPS proves HeapStep (no step writes an existing cell) for "
+             "every parameter size.",
         note="Real interleavings inside LazyLock/Once are provoked, not controlled; the model assumes std's guarantees (stated in DESIGN.md).",
         design_ref="8/C18",
     ),
